@@ -1,11 +1,110 @@
 import HickoryVerif.Drv.Proto
+import HickoryVerif.Model.Tsig
 
+/-!
+Driver of C13.  Ops (one per line):
+
+* `tbs  <buf> <prev|~> <first> <rdok>`                                   `signed_bitmessage_to_buf`
+* `vmb  <signer> <buf> <prev|~> <first> <rdok>`                          `TSigner::verify_message_byte`
+* `ssm  <buf>`                                                            `TSigner::should_sign_message`
+* `stbs <signer> <reqmac> <resp> <oid> <time> <error>`                   `TSigner::encode_response_tbs`
+* `vfy  <signer> <prevmac> <remote_time> <request_time> <buf> <rdok> <parseok> <req> <first>`
+                                                                          `TSigVerifier::verify`
+* `srv  <origin> <allow_update> <deny|all|signed> <signers|-> <now> <buf> <rdok> <journal>`
+                                                                          Catalog + SqliteZoneHandler
+
+`<signer>` = `<name>/<alg bits>/<fudge>/<macok>/<keyid>` where `macok` is the verdict of the real
+HMAC (`hmac::verify(key, tbs, mac-in-the-message)`) evaluated by the harness and `keyid` names the
+key bytes in the harness' key table (ignored here); `<signers>` is a comma-separated list.
+`<req>`/`<first>` (the unsigned request the verifier was created from, an earlier reply of the
+chain) and `<journal>` only tell the harness how to set the real objects up; the model ignores them.
+-/
 namespace HickoryVerif.Drv.C13
-open HickoryVerif HickoryVerif.Drv
+open HickoryVerif HickoryVerif.Drv HickoryVerif.Tsig
 
 abbrev State := Unit
 def init : State := ()
 
-def step (s : State) (_toks : List String) : State × String := (s, "bad-op")
+def parseBool (s : String) : Option Bool :=
+  if s == "1" then some true else if s == "0" then some false else none
+
+def parseOptHex (s : String) : Option (Option Bytes) :=
+  if s == "~" then some none else (parseHex s).map some
+
+def parseSigner (s : String) : Option Signer :=
+  match s.splitOn "/" with
+  | [n, alg, fudge, ok, _keyid] => do
+    let n ← parseName n
+    let alg ← alg.toNat?
+    let fudge ← fudge.toNat?
+    let ok ← parseBool ok
+    pure { name := n, alg := alg, fudge := fudge, macOK := fun _ _ => ok }
+  | _ => none
+
+def parseSigners (s : String) : Option (List Signer) :=
+  if s == "-" then some [] else (s.splitOn ",").mapM parseSigner
+
+def parsePolicy (s : String) : Option AxfrPolicy :=
+  if s == "deny" then some .deny else if s == "all" then some .allowAll
+  else if s == "signed" then some .allowSigned else none
+
+def showSig (s : SigRec) : String :=
+  s!"{s.start} {s.stop} {showName s.name} {s.rclass} {s.ttl} {showName s.data.algName} " ++
+  s!"{s.data.time} {s.data.fudge} {toHex s.data.mac} {s.data.oid} {s.data.error} {toHex s.data.other}"
+
+def showResp (id now : Nat) : Option RespKind → String
+  | none => "none"
+  | some (.signed sg _ e) => s!"{showName sg.name}/{sg.alg}/{sg.fudge}/{e}/{outLen sg.alg}/{id}/{now}"
+  | some (.badSig sg) => s!"{showName sg.name}/{sg.alg}/{sg.fudge}/{BADSIG}/0/{id}/{now}"
+  | some (.unknownKey n) => s!"{showName n}/256/300/{BADKEY}/0/{id}/{now}"
+
+def showKind : Dispatch → String
+  | .other => "other" | .update => "upd" | .axfr => "axfr"
+
+def handle (toks : List String) : Option String :=
+  match toks with
+  | ["tbs", buf, prev, first, rdok] => do
+    let buf ← parseHex buf; let prev ← parseOptHex prev
+    let first ← parseBool first; let rdok ← parseBool rdok
+    pure (showOutcome (fun (t, s) => toHex t ++ " " ++ showSig s)
+      (signedBitmessageToBuf buf prev first rdok))
+  | ["vmb", sg, buf, prev, first, rdok] => do
+    let sg ← parseSigner sg
+    let buf ← parseHex buf; let prev ← parseOptHex prev
+    let first ← parseBool first; let rdok ← parseBool rdok
+    pure (showOutcome (fun v => s!"{toHex v.mac} {v.time} {v.lo} {v.hi}")
+      (verifyMessageByte sg buf prev first rdok))
+  | ["ssm", buf] => do
+    let buf ← parseHex buf
+    pure (match shouldSign buf with | some b => showBool b | none => "err")
+  | ["stbs", sg, reqmac, resp, oid, time, error] => do
+    let sg ← parseSigner sg
+    let reqmac ← parseHex reqmac; let resp ← parseHex resp
+    let oid ← oid.toNat?; let time ← time.toNat?; let error ← error.toNat?
+    pure (toHex (encodeResponseTbs sg reqmac resp (stubOf sg oid time error)))
+  | ["vfy", sg, prev, rt, qt, buf, rdok, pok, _unsignedReq, _firstReply] => do
+    let sg ← parseSigner sg
+    let prev ← parseHex prev; let rt ← rt.toNat?; let qt ← qt.toNat?
+    let buf ← parseHex buf; let rdok ← parseBool rdok; let pok ← parseBool pok
+    let v : Verifier := { signer := sg, previous := prev, remoteTime := rt, requestTime := qt }
+    pure (showOutcome (fun v' => s!"{toHex v'.previous} {v'.remoteTime}") (v.verify buf rdok pok))
+  | ["srv", origin, au, pol, sgs, now, buf, rdok, _journal] => do
+    let origin ← parseName origin; let au ← parseBool au; let pol ← parsePolicy pol
+    let sgs ← parseSigners sgs; let now ← now.toNat?
+    let buf ← parseHex buf; let rdok ← parseBool rdok
+    let cfg : ZoneCfg := { origin := origin, allowUpdate := au, axfr := pol, signers := sgs }
+    let id := (rd16 buf 0).getD 0
+    pure (match serve cfg buf now rdok with
+      | .ok none => "noparse"
+      | .ok (some d) =>
+        match d.kind with
+        | .other => "other"
+        | k => s!"{showKind k} eff={showBool d.effect} rc={d.rcode} rtsig={showResp id now d.resp}"
+      | .err => "err"
+      | .panic m => "panic " ++ m)
+  | _ => none
+
+def step (s : State) (toks : List String) : State × String :=
+  (s, (handle toks).getD "bad-op")
 
 end HickoryVerif.Drv.C13
